@@ -150,6 +150,9 @@ class _Subst(ast.NodeTransformer):
 
 
 def grad_obligations(reg):
+    from pyvc.sym import ABSTRACT_NL, ABSTRACT_REAL
+    ABSTRACT_REAL[0] = False
+    ABSTRACT_NL[0] = False      # these obligations are about real arithmetic itself: products stay interpreted
     mod = reg.module(REL)
     out = []
     n_calls = 0
